@@ -40,7 +40,8 @@ HeaderLibs ==
   \cup { [EmptyLib EXCEPT !.version = <<Dec(FALSE, 54, 1)>>, !.names_case_sensitive = <<"ON">>, !.no_wire_extension_at_pin = <<"OFF">>,
                           !.bus_bit_chars = <<"\"[]\"">>, !.divider_char = <<"\"/\"">>, !.manufacturing_grid = <<Dn(2)>>,
                           !.use_min_spacing = <<"ON">>, !.clearance_measure = <<"MAXXY">>, !.fixed_mask = TRUE] }
-  \cup { [EmptyLib EXCEPT !.extensions = <<[name |-> "\"tag\"", data |-> ws]>>] : ws \in { <<>>, <<"a">>, <<"CREATOR", "\"x y\"", ";", "1.5">> } }
+  \cup { [EmptyLib EXCEPT !.extensions = <<[name |-> "\"tag\"", data |-> ws]>>] : ws \in { <<>>, <<"a">>, <<"CREATOR", "\"x y\"", ";", "1.5">>,
+                                                                                                      [i \in 1..130 |-> IF i % 7 = 0 THEN "\"quoted  words here\"" ELSE "extension_data_word_x"] } }
 
 UnitFields == {"time_ns", "capacitance_pf", "resistance_ohms", "power_mw", "current_ma", "voltage_volts", "frequency_mhz"}
 UnitLibs ==
@@ -89,7 +90,12 @@ Classes == { [k |-> "COVER", tp |-> <<>>], [k |-> "COVER", tp |-> <<"BUMP">>], [
    \cup { [k |-> "CORE", tp |-> t] : t \in {<<>>, <<"FEEDTHRU">>, <<"TIEHIGH">>, <<"TIELOW">>, <<"SPACER">>, <<"ANTENNACELL">>, <<"WELLTAP">>} }
    \cup { [k |-> "ENDCAP", tp |-> <<t>>] : t \in {"PRE", "POST", "TOPLEFT", "TOPRIGHT", "BOTTOMLEFT", "BOTTOMRIGHT"} }
 Pr(n, v, vk) == [name |-> n, value |-> v, vk |-> vk]
-PropSets == { <<Pr("p1", "v1", "id")>>, <<Pr("p1", "\"a b\"", "str")>>, <<Pr("p1", "1.50", "num")>>,
+\* long statements: quoted strings of 1.2, 2 and 3.6 thousand characters with blanks inside (a statement has no length limit, and
+\* a quoted string is one token wherever it sits)
+RECURSIVE RepS(_, _)
+RepS(s, n) == IF n = 0 THEN "" ELSE s \o RepS(s, n - 1)
+LongStr(n) == "\"" \o RepS("lorem ipsum ", n) \o "end\""
+PropSets == { <<Pr("p1", LongStr(k), "str")>> : k \in {100, 169, 170, 171, 300} } \cup { <<Pr("p1", "v1", "id")>>, <<Pr("p1", "\"a b\"", "str")>>, <<Pr("p1", "1.50", "num")>>,
               <<Pr("p1", "v1", "id"), Pr("p2", "\"s\"", "str"), Pr("p3", "-3", "num")>>,
               \* the same list spread over two and over three PROPERTY statements
               <<Pr("p1", "1", "num"), Pr("", "", "split"), Pr("p2", "\"two\"", "str"), Pr("p3", "x", "id")>>,
